@@ -191,6 +191,12 @@ C03_NoTargetDisconnect(B, k) ==
         /\ LET p == H(B, k)[MaxOf(Txs(B, k))].p IN
            /\ p.k = "Disconnect"
            /\ p.msg = Msg("disconnect_no_target", H(B, k)[MaxOf(ClientInfos(B, k))].f.locale)
+\* the Transfer and the no-target Disconnect are the outcome of ALL three stages: discovery's list was offered to the filters and the
+\* filters' list -- also an empty one -- to the strategy (which may well answer an empty list with a fallback target)
+C03_EveryStageConsulted(B, k) ==
+  LET h == H(B, k)
+      final == {i \in Txs(B, k) : h[i].p.k = "Transfer" \/ (h[i].p.k = "Disconnect" /\ Has(h[i].p, "msg") /\ h[i].p.msg[1] = "disconnect_no_target")}
+  IN final # {} => (Disc(B, k) # {} /\ Filt(B, k) # {} /\ Sel(B, k) # {})
 \* a failing routing step: no Transfer
 C03_ErrorNoTransfer(B, k) ==
   LET h == H(B, k)
@@ -198,7 +204,7 @@ C03_ErrorNoTransfer(B, k) ==
                 \/ \E i \in Sel(B, k) : h[i].c.ret = "err"
   IN failed => Transfers(B, k) = {}
 
-C03(B, k) == /\ C03_ListsPassedOn(B, k) /\ C03_TransferIsChoice(B, k) /\ C03_ChoiceIsTransferred(B, k)
+C03(B, k) == /\ C03_EveryStageConsulted(B, k) /\ C03_ListsPassedOn(B, k) /\ C03_TransferIsChoice(B, k) /\ C03_ChoiceIsTransferred(B, k)
              /\ C03_NoTargetDisconnect(B, k) /\ C03_ErrorNoTransfer(B, k)
 
 ---------------------------------------------------------------------------
@@ -322,7 +328,7 @@ C10(B, k) == C10_AuthCookieIssuedIff(B, k) /\ C10_AuthCookieContents(B, k) /\ C1
 ClauseNames(p) ==
   CASE p = "C01" -> {"C01_GrantOnlyVouched","C01_PlayerIsVouched","C01_AuthArgs","C01_NoGrantOnFailure","C01_CipherKeyedBySecret"}
     [] p = "C02" -> {"C02_FlagIffNoCookie","C02_CookieAnswered","C02_VerdictRequired","C02_IdentityFromCookie"}
-    [] p = "C03" -> {"C03_ListsPassedOn","C03_TransferIsChoice","C03_ChoiceIsTransferred","C03_NoTargetDisconnect","C03_ErrorNoTransfer"}
+    [] p = "C03" -> {"C03_EveryStageConsulted", "C03_ListsPassedOn","C03_TransferIsChoice","C03_ChoiceIsTransferred","C03_NoTargetDisconnect","C03_ErrorNoTransfer"}
     [] p = "C04" -> {"C04_ProportionateMemory", "C04_NoPanic","C04_EndsByItself","C04_BoundedAllocation","C04_BadFrameEndsSilently"}
     [] p = "C06" -> {"C06_Order","C06_NothingGarbled","C06_CookieRequestKeys","C06_SuccessAfterHonestResponse",
                      "C06_RoutingAfterClientInfo","C06_StatusExchange","C06_CompleteLogin","C06_DeviationSilent"}
@@ -339,7 +345,7 @@ Clause(n, B, k) ==
     [] n = "C02_VerdictRequired" -> C02_VerdictRequired(B, k) [] n = "C02_IdentityFromCookie" -> C02_IdentityFromCookie(B, k)
     [] n = "C03_ListsPassedOn" -> C03_ListsPassedOn(B, k) [] n = "C03_TransferIsChoice" -> C03_TransferIsChoice(B, k)
     [] n = "C03_ChoiceIsTransferred" -> C03_ChoiceIsTransferred(B, k) [] n = "C03_NoTargetDisconnect" -> C03_NoTargetDisconnect(B, k)
-    [] n = "C03_ErrorNoTransfer" -> C03_ErrorNoTransfer(B, k)
+    [] n = "C03_ErrorNoTransfer" -> C03_ErrorNoTransfer(B, k) [] n = "C03_EveryStageConsulted" -> C03_EveryStageConsulted(B, k)
     [] n = "C04_NoPanic" -> C04_NoPanic(B, k) [] n = "C04_EndsByItself" -> C04_EndsByItself(B, k)
     [] n = "C04_BoundedAllocation" -> C04_BoundedAllocation(B, k) [] n = "C04_BadFrameEndsSilently" -> C04_BadFrameEndsSilently(B, k)
     [] n = "C04_ProportionateMemory" -> C04_ProportionateMemory(B, k) [] n = "C11_HashOverThisConnection" -> C11_HashOverThisConnection(B, k)
